@@ -305,3 +305,9 @@ mod tests {
         assert_eq!(format_permissions(mode), expected);
     }
 }
+
+// Verification hook: harnesses live outside the repository (see MANIFEST.hooks of the verifier).
+#[cfg(kani)]
+pub(crate) mod verif_kani {
+    include!(concat!(env!("FINDUTILS_VERIF_DIR"), "/harness/m_ls.rs"));
+}
